@@ -27,6 +27,7 @@ def main():
     ap.add_argument("--checks")
     ap.add_argument("--tier", default="quick")
     ap.add_argument("--skip-suites", action="store_true")
+    ap.add_argument("--keep-name", action="store_true", help="copy the demo under its own file name (for demos that read their own source)")
     a = ap.parse_args()
     seed = os.path.abspath(a.seed)
     meta = json.load(open(os.path.join(seed, "meta.json")))
@@ -46,6 +47,8 @@ def main():
             copy_to = "."
         m = re.search(r"(go (test|run|vet)[^\n(]*)", cmd)
         gocmd = m.group(1).strip() if m else cmd
+        if a.cmd:
+            gocmd = a.cmd  # given explicitly: taken verbatim
         cdm = re.search(r"cd\s+(\S+)\s*&&", cmd)
         sub = ""
         if cdm:
@@ -67,7 +70,7 @@ def main():
         demofiles = [f for f in os.listdir(seed) if f.endswith("_test.go")]
         def put_demo():
             for f in demofiles:
-                shutil.copy(os.path.join(seed, f), os.path.join(repo, copy_to, "zz_seed_" + f))
+                shutil.copy(os.path.join(seed, f), os.path.join(repo, copy_to, ("" if a.keep_name else "zz_seed_") + f))
             if os.path.isdir(os.path.join(seed, "demo")):
                 shutil.copytree(os.path.join(seed, "demo"), os.path.join(repo, "zz_seed_demo"), dirs_exist_ok=True)
                 gm = os.path.join(repo, "zz_seed_demo", "go.mod")
@@ -77,7 +80,7 @@ def main():
                     open(gm, "w").write(s)
         def del_demo():
             for f in demofiles:
-                p = os.path.join(repo, copy_to, "zz_seed_" + f)
+                p = os.path.join(repo, copy_to, ("" if a.keep_name else "zz_seed_") + f)
                 if os.path.exists(p):
                     os.remove(p)
             shutil.rmtree(os.path.join(repo, "zz_seed_demo"), ignore_errors=True)
